@@ -312,13 +312,18 @@ def run_case(rng, idx, tier, lane, ctx):
             bad("stored distance differs from the cost recomputed at the particle", index=i, stored=float(abc.dist[i]), recomputed=cst)
         if i in sub:
             th, xs = model_theta(abc.res[i])
-            r = LC.ref_solution(c, theta=th, x0=xs, crosscheck=False, amplification=False)
+            # the reference is cross-checked (two methods) and its error amplification estimated AT THE PARTICLE: a sampled particle can
+            # sit where no integrator is reliable (thorough case 1157: S0 > N0 in SIR_Birth_Death drives N through the pole of
+            # beta*S*I/N; odeint at default and at 1e-12 tolerances differ by 0.011 there) - nothing is decided for such a particle
+            r = LC.ref_solution(c, theta=th, x0=xs, crosscheck=True, amplification=True)
+            if not r.ok:
+                counters["reference_unreliable_at_particle"] = counters.get("reference_unreliable_at_particle", 0) + 1
             if r.ok:
                 yhat = r.x[:, c.obs_idx]
                 exp = LC.ref_cost(c, yhat)
                 g = float(np.sum(np.abs(RL.dcost(c.kind, c.y, yhat, c.spread, None))))
                 counters["reference_cost_checks"] += 1
-                if not abs(abc.dist[i] - exp) <= 1e-6 * (1 + abs(exp)) + g * tol_x:
+                if not abs(abc.dist[i] - exp) <= 1e-6 * (1 + abs(exp)) + g * max(tol_x, r.tol(1e-10)):
                     bad("stored distance differs from the reference cost at the particle (parameter order / log-scale back-transform)", index=i,
                         stored=float(abc.dist[i]), reference=exp, particle=abc.res[i].tolist(), names=[d[0] for d in desc], model_parameters=th, model_x0=xs)
     if len(abc.w) != N or not np.all(np.isfinite(abc.w)) or not np.all(abc.w > 0):
